@@ -24,8 +24,9 @@ SPEC = dict(
           "known and unduplicated; generations oldest->newest are a contiguous run of the acknowledged messages ending "
           "with the last one; nothing but the oldest generation disappears and only when a roll was due; no generation "
           "over its limit (entries / bytes on disk incl. the line terminator); a new generation only when the next "
-          "message does not fit (Counted: or on re-open of a non-empty file, MaxSize: or on re-open of a full file - "
-          "both documented); at most max_gen files. Mode crash: for every history of length 1..4 (quick) / 1..6 "
+          "message does not fit or when a full file is re-opened; Counted's documented roll at every re-open of a "
+          "non-empty file is reported under its own key counted|new-generation-on-reopen and the run continues; at most "
+          "max_gen files. Mode crash: for every history of length 1..4 (quick) / 1..6 "
           "(thorough), every event i and every n <= number of CELMA_VERIF_POINT hits of event i, a separate run in "
           "which event i is executed by a forked child that _exit()s at the n-th hit; the state left behind may differ "
           "from the state before only by the in-flight message and by a due roll; then the files are re-opened and the "
@@ -42,7 +43,10 @@ SPEC = dict(
              require_stats=["rolls_on_write", "rolls_on_open", "fits_exactly", "one_byte_too_long",
                             "oldest_generation_dropped", "exact_state_matches"],
              timeout=3600),
-        dict(name="crash", flavour="asan",
+        # fork()+_exit() of an ASan process costs 3-7 ms (page tables of the shadow memory), 0.9 ms without a
+        # sanitizer: the fault enumeration runs in the "plain" flavour (-O1, libstdc++ assertions); the same
+        # library code runs under ASan/UBSan in mode hist
+        dict(name="crash", flavour="plain",
              cases={t: NCFG * _nhist(l) for t, l in CRASH_LEN.items()},
              args={"maxlen": CRASH_LEN}, exhaustive=True, eval_stat="crash_runs",
              require_stats=["crash_runs", "inflight_present", "inflight_absent", "crash_at.roll:after-rename",
